@@ -334,6 +334,45 @@ def odd_name_cases():
     return out
 
 
+def decoy_cases():
+    """Package bodies around the rule 'top-level function definitions of the four game-loop names are left out':
+    near misses that must stay (nested definitions, fields and methods of tables with such names, longer/shorter
+    names, uses that are not definitions, text in strings and comments) and real definitions in awkward places
+    (parameters, nested `end`s, several on one line, the same name twice)."""
+    keep = [b'do function _init() a=1 end end', b'if x then function _draw() a=1 end end',
+            b'function f() function _update() a=1 end end', b'function obj._init() a=1 end', b'function obj:_draw() a=1 end',
+            b'function _init.sub() a=1 end', b'function _draw:m() a=1 end', b'function _update.a.b() a=1 end',
+            b'function _init2() a=1 end', b'function my_init() a=1 end', b'function _updated() a=1 end',
+            b'function _update6() a=1 end', b'function _update600() a=1 end', b'function __draw() a=1 end',
+            b'function _INIT() a=1 end', b'_init()', b'x=_init', b'_draw=nil', b'x={_init=1}', b'x.y._update=1',
+            b's="function _init() end"', b's=[[\nfunction _draw()\nend\n]]', b'-- function _init() end\ny=2',
+            b'--[[\nfunction _update()\nend\n]] y=3', b'while x do function _update60() end break end',
+            b'repeat function _draw() end until true', b'for i=1,2 do function _init() end end',
+            b'local t = {function() function _init() end end}']
+    strip = [b'function _update(dt) a=dt end', b'function _draw(...) a=1 end',
+             b'function _init() local function g() end if a then b() end for i=1,2 do end end',
+             b'function _init() a=1 end function _draw() b=2 end', b'function _update60() end',
+             b'function _init() a=1 end function _init() a=2 end', b'function _draw() return function() end end',
+             b'function\n_init\n(\n)\nend', b'function _init()--[[c]] end', b'function _update() ?1\nend',
+             b'function _draw() if (a) b=1\nend', b'function _init() s="end" end', b'function _init() s=[[end]] end']
+    out = []
+    for i, k in enumerate(keep):
+        body = b'p=1\n' + k + b'\nq=2\n'
+        out.append(('decoy-keep-%d' % i, {'p.lua': body}, b'require("p")\nz=1\n', [], None, {b'p': 'p.lua'}))
+        # the same decoy next to a real definition
+        body2 = b'p=1\nfunction _init() i=1 end\n' + k + b'\nfunction _draw() d=1 end\nq=2\n'
+        out.append(('decoy-keep-mixed-%d' % i, {'p.lua': body2, '__expected__': b'p=1\n' + k + b'\nq=2\n'},
+                    b'require("p")\nz=1\n', [], None, {b'p': '__expected__'}))
+    for i, k in enumerate(strip):
+        for j, (pre, post) in enumerate(((b'p=1\n', b'\nq=2\n'), (b'p=1 ', b' q=2\n'), (b'', b''), (b'p=1\n', b''))):
+            body = pre + k + post
+            out.append(('decoy-strip-%d-%d' % (i, j), {'p.lua': body, '__expected__': pre + b' ' + post},
+                        b'require("p")\nz=1\n', [], None, {b'p': '__expected__'}))
+            out.append(('decoy-strip-kept-with-option-%d-%d' % (i, j), {'p.lua': body},
+                        b'require("p", {use_game_loop=true})\nz=1\n', [], None, {b'p': 'p.lua'}))
+    return out
+
+
 def call_context_cases():
     """require() wherever an expression can stand in the main program and inside a package: every context must be
     found by the walker (the package gets embedded) and left as written."""
@@ -376,7 +415,7 @@ def path_cases():
          b'require("util")\nrequire("util/vec")\nz=1\n', [], None, {b'util': 'util.lua', b'util/vec': 'util/vec.lua'}),
         ('dir-named-like-package-loadpath', {'lib/util.lua': b'u=1\n', 'lib/util/vec.lua': b'v=2\n', 'util/x.lua': b'w=3\n'},
          b'require("util")\nz=1\n', ['--lua-path', 'lib/?;lib/?.lua'], None, {b'util': 'lib/util.lua'}),
-    ] + nested_loadpath_cases() + odd_name_cases() + call_context_cases()
+    ] + nested_loadpath_cases() + odd_name_cases() + call_context_cases() + decoy_cases()
 
 
 def run_path(pc, res):
@@ -386,6 +425,8 @@ def run_path(pc, res):
     old = os.environ.pop('PICO8_LUA_PATH', None)
     try:
         for f, data in files.items():
+            if f == '__expected__':
+                continue
             os.makedirs(os.path.dirname(os.path.join(d, f)) or d, exist_ok=True)
             open(os.path.join(d, f), 'wb').write(data)
         open(os.path.join(d, 'main.lua'), 'wb').write(main)
